@@ -415,7 +415,7 @@ func init() {
 		"Base58 is a recording stub (the bytes handed to base58.Encode are compared)",
 		"counterexamples behind the idealised HMAC are confirmed natively by walking the child index from the model's value (up to 8192 derivations)",
 	}, []string{"a child private scalar equal to 0 ((IL+k) mod n = 0) is not refused by Child although BIP32 declares it invalid: one HMAC value in 2^256, cannot be exhibited", "neuter/derive commutation (needs the group-homomorphism axiom; not encoded)", "the hash and curve primitives themselves"},
-		"all parent keys, all 2^32 indices (symbolic), private and public; seed lengths 0..66 and {127..129, 255..257, 272, 288, 320, 511, 512, 528, 576, 65552, 65600}", "same")
+		"all parent keys, all 2^32 indices (symbolic), private and public; seed lengths 0..66 and {127..129, 255..257, 272, 288, 320, 511, 512, 528, 576}", "same")
 	meta("C05", []string{
 		"crypto idealised and Base58 stubbed as in C04; natively the checksum bytes of a model are recomputed with the real double-SHA256 before parsing",
 		"derived private keys are assumed non-zero and derived public keys on the curve (contract of the idealised curve)",
@@ -438,7 +438,7 @@ func init() {
 		"Base58Check on every decoded byte string of 0..8 bytes (valid and invalid checksums); cashaddr: 1..3 letter prefixes x 0..9 symbols; DecodeAddress on arbitrary ASCII strings <=4 bytes and prefix+<=9 symbols x 6 nets; filter-load 0..36000 bytes x HashFuncs {0,1,2,50}; gcs <=3 / <=6 bytes, arbitrary N,P,M; JSON trees depth 1 width 2 (thorough: depth 2)", "larger strings; raw address strings just above the length pre-check; N-prefixed gcs filters")
 	meta("C15", []string{"crypto idealised and Base58 stubbed as in C04", "histories: one derivation (Child / Neuter / String+parse) followed by one of Zero(derived), Zero(original), SetNet, Child"},
 		[]string{"longer histories; NewExtendedKey with caller-owned buffers (documented custom API)"},
-		"two-step histories over {Child,Neuter,parse} x {Zero,Zero,SetNet,Child}, private and public, cached and uncached public key", "same plus a second derivation after Child")
+		"two-step histories over {Child,Neuter,parse} x {Zero(derived) then SetNet,Zero(original),SetNet,Child}, private and public, cached and uncached public key", "same plus a second derivation after Child")
 	meta("C16", []string{
 		"wire.MsgTx.TxHash, MsgBlock.BlockHash/Serialize/SerializeSize/Deserialize/DeserializeTxLoc are stubs: arbitrary hashes, an arbitrary 3-byte serialisation, Deserialize consumes exactly the serialisation and yields the message (natively the harness uses a real block and the real functions)",
 	}, []string{"TxLoc contents (stubbed)", "blocks with more than 2 transactions / histories longer than the tier bound"},
